@@ -326,7 +326,10 @@ class YP(object):
         '''findall/3 returns values according to template into bag, that satisfy goal.'''
         # assumes goal is instantiated
         q = self.query(goal._name,goal._args)
-        results = self.makelist([ get_value(template) for r in q ])
+        # each result is a copy of the template as instantiated by that answer; its
+        # unbound variables are new ones, so results do not alias each other, the
+        # template or whatever the goal's variables are bound to later
+        results = self.makelist([ _copy_term(template, {}) for r in q ])
         for y in unify(bag, results):
             yield False
 
